@@ -40,45 +40,55 @@ Eq(a, b) == [a EXCEPT !.id = ""] = [b EXCEPT !.id = ""]
 
 \* S represents V: every rule of V has an equal rule in S and vice versa (ids are not part of a rule)
 Represents(S, V) == (\A r \in V : \E x \in S : Eq(r, x)) /\ (\A x \in S : \E r \in V : Eq(r, x))
-\* what may be reported for the valid rules V: the rules themselves, or equal rules that were already
-\* active (an unchanged rule keeps its controller and is reported under the id it was first given)
-Reportable(fam, V) == {A \in SUBSET (V \cup {o \in active[fam] : \E v \in V : Eq(o, v)}) : Represents(A, V)}
 \* same rules under rule equality
 SameRules(A, B) == (\A a \in A : \E b \in B : Eq(a, b)) /\ (\A b \in B : \E a \in A : Eq(a, b))
-
 ValidOf(fam, S) == {r \in S : Valid(fam, r)}
+
+\* What may be reported when the rules in force are V (under rule equality): V itself, or equal
+\* rules known to the manager - an unchanged rule keeps its controller and is reported under the id it
+\* was first given; a rule given under several ids is kept once or several times.
+Reportable(fam, V, extra) ==
+    LET cand == {c \in given[fam] \cup active[fam] \cup extra \cup V : \E v \in V : Eq(c, v)} IN
+    {A \in SUBSET cand : Represents(A, V)}
+
+\* the same rule under several ids: how often it is kept - and therefore whether an identical
+\* reload is recognised as such - is not determined
+HasDups(S) == \E a, b \in S : a # b /\ Eq(a, b)
 
 (* Each operation: [given', active' (a SET of allowed values), ret (set of allowed return strings)] *)
 LoadAllSpec(fam, rs) ==
-    LET S == SeqToSet(rs) IN
-    IF S = given[fam]
-    THEN [given |-> S, actives |-> {active[fam]}, rets |-> {"false", "()"}]              \* unchanged
-    ELSE [given |-> S,
-          actives |-> Reportable(fam, ValidOf(fam, S)),
-          rets |-> IF SameRules(ValidOf(fam, S), ValidOf(fam, given[fam])) /\ S # {} /\ given[fam] # {}
-                   THEN {"true", "false", "()"} ELSE {"true", "()"}]
+    LET S == SeqToSet(rs)
+        V == ValidOf(fam, S)
+    IN  IF S = given[fam] /\ ~HasDups(S)
+        THEN [given |-> S, actives |-> {active[fam]}, rets |-> {"false", "()"}]              \* unchanged
+        ELSE [given |-> S,
+              actives |-> Reportable(fam, V, S) \cup (IF S = given[fam] THEN {active[fam]} ELSE {}),
+              rets |-> IF S = given[fam] \/ (SameRules(V, ValidOf(fam, given[fam])) /\ S # {} /\ given[fam] # {})
+                       THEN {"true", "false", "()"} ELSE {"true", "()"}]
 
 LoadResSpec(fam, res, rs) ==
     LET S == SeqToSet(rs)
         mine(T) == {r \in T : KeyOf(fam, r) = res}
         rest(T) == {r \in T : KeyOf(fam, r) # res}
         oldG == mine(given[fam])
+        V == ValidOf(fam, mine(S))
     IN  IF res = "" THEN [given |-> given[fam], actives |-> {active[fam]}, rets |-> {"err"}]
         ELSE IF S = {} THEN [given |-> rest(given[fam]), actives |-> {rest(active[fam])}, rets |-> {"true", "false"}]
-        ELSE IF S = oldG THEN [given |-> given[fam], actives |-> {active[fam]}, rets |-> {"false"}]
+        ELSE IF S = oldG /\ ~HasDups(S) THEN [given |-> given[fam], actives |-> {active[fam]}, rets |-> {"false"}]
         ELSE [given |-> rest(given[fam]) \cup S,
-              actives |-> {rest(active[fam]) \cup A : A \in Reportable(fam, ValidOf(fam, mine(S)))},
-              rets |-> IF SameRules(ValidOf(fam, S), ValidOf(fam, oldG)) THEN {"true", "false"} ELSE {"true"}]
+              actives |-> {rest(active[fam]) \cup A : A \in Reportable(fam, V, S)}
+                          \cup (IF S = oldG THEN {active[fam]} ELSE {}),
+              rets |-> IF S = oldG \/ SameRules(V, ValidOf(fam, oldG)) THEN {"true", "false"} ELSE {"true"}]
 
 \* an append adds the rule and keeps every active rule
 AppendSpec(fam, r) ==
-    IF ~Valid(fam, r)
-    THEN [given |-> given[fam], actives |-> {active[fam]}, rets |-> {"true", "false"}]
-    ELSE IF r \in active[fam]
-    THEN [given |-> given[fam] \cup {r}, actives |-> {active[fam]}, rets |-> {"false", "true"}]
-    ELSE IF \E x \in active[fam] : Eq(x, r)
-    THEN [given |-> given[fam] \cup {r}, actives |-> {active[fam], active[fam] \cup {r}}, rets |-> {"true", "false"}]
-    ELSE [given |-> given[fam] \cup {r}, actives |-> {active[fam] \cup {r}}, rets |-> {"true"}]
+    LET mine(T) == {x \in T : KeyOf(fam, x) = KeyOf(fam, r)}
+        rest(T) == {x \in T : KeyOf(fam, x) # KeyOf(fam, r)}
+    IN  IF ~Valid(fam, r)
+        THEN [given |-> given[fam], actives |-> {active[fam]}, rets |-> {"true", "false"}]
+        ELSE [given |-> given[fam] \cup {r},
+              actives |-> {rest(active[fam]) \cup A : A \in Reportable(fam, mine(active[fam]) \cup {r}, {r})},
+              rets |-> IF r \in given[fam] \/ (\E x \in active[fam] : Eq(x, r)) THEN {"true", "false"} ELSE {"true"}]
 
 ClearAllSpec(fam) == [given |-> {}, actives |-> {{}}, rets |-> {"()"}]
 ClearResSpec(fam, res) ==
